@@ -258,6 +258,117 @@ func main() {
 			}
 		}
 		fmt.Fprintf(stdout, "deleg: cases=%d nontrivial=%d disagreements=%d monitor=%v counters=%v\n", res.Evaluations, res.DistinctNontrivial, res.DisagreementCount, res.MonitorHitCount, res.Counters)
+	case "ethtrk":
+		fs := flag.NewFlagSet("ethtrk", flag.ExitOnError)
+		driver := fs.String("driver", "", "path to olpdriver")
+		seed := fs.Uint64("seed", 1, "seed")
+		hist := fs.Int("histories", 10, "histories")
+		blocks := fs.Int("blocks", 12, "blocks per history")
+		maxtx := fs.Int("maxtxs", 6, "max txs per block")
+		maxwit := fs.Int("maxwit", 4, "witness counts 1..maxwit (0 now and then)")
+		exh := fs.Int("exhaustive", 0, "component part: all vote sequences up to this length")
+		exhwit := fs.Int("exhwit", 4, "component part: witness counts 1..exhwit")
+		only := fs.Int("only", -1000, "run only this case (>= 0 generated, -1.. scripted scenarios)")
+		replay := fs.String("replay", "", "replay file written by ./check (re-runs the recorded case)")
+		out := fs.String("out", "", "result json")
+		fs.Parse(os.Args[2:])
+		stdout := apph.SilenceAppLogs()
+		opt := apph.EthOptions{Driver: *driver, Seed: *seed, Histories: *hist, Blocks: *blocks, MaxTxs: *maxtx, MaxWit: *maxwit, Exhaustive: *exh, ExhWit: *exhwit, Only: *only}
+		if *replay != "" {
+			if err := apph.EthReplayOptions(*replay, &opt); err != nil {
+				fmt.Fprintln(stdout, "olh ethtrk:", err)
+				os.Exit(2)
+			}
+		}
+		res, err := apph.RunEthTrk(opt)
+		apph.Cleanup()
+		if err != nil {
+			fmt.Fprintln(stdout, "olh ethtrk:", err)
+			os.Exit(2)
+		}
+		if *out != "" {
+			if err := kv.WriteResult(*out, res); err != nil {
+				fmt.Fprintln(stdout, err)
+				os.Exit(2)
+			}
+		}
+		fmt.Fprintf(stdout, "ethtrk: cases=%d nontrivial=%d disagreements=%d monitor=%v counters=%v\n", res.Evaluations, res.DistinctNontrivial, res.DisagreementCount, res.MonitorHitCount, res.Counters)
+		if *replay != "" {
+			for _, h := range res.MonitorHits {
+				fmt.Fprintf(stdout, "MONITOR %s: %s\n", h.Signature, h.Detail)
+			}
+			for _, d := range res.Disagreements {
+				fmt.Fprintf(stdout, "DISAGREEMENT %s\n  op    %s\n  impl  %s\n  model %s\n", d.Kind, d.Op, d.Impl, d.Model)
+			}
+			if len(res.MonitorHits) > 0 || res.DisagreementCount > 0 {
+				os.Exit(1)
+			}
+		}
+	case "stake":
+		fs := flag.NewFlagSet("stake", flag.ExitOnError)
+		driver := fs.String("driver", "", "path to olpdriver")
+		seed := fs.Uint64("seed", 1, "seed")
+		hist := fs.Int("histories", 10, "histories")
+		blocks := fs.Int("blocks", 20, "blocks per history")
+		maxtx := fs.Int("maxtxs", 5, "max txs per block")
+		corpus := fs.String("corpus", "", "corpus dir (*.script run first)")
+		replay := fs.String("replay", "", "replay one script file")
+		out := fs.String("out", "", "result json")
+		fs.Parse(os.Args[2:])
+		stdout := apph.SilenceAppLogs()
+		if *replay != "" {
+			rc := apph.ReplayStake(*driver, *replay, stdout)
+			apph.Cleanup()
+			os.Exit(rc)
+		}
+		res, err := apph.RunStake(apph.StakeOptions{Driver: *driver, Seed: *seed, Histories: *hist, Blocks: *blocks, MaxTxs: *maxtx, Corpus: *corpus})
+		apph.Cleanup()
+		if err != nil {
+			fmt.Fprintln(stdout, "olh stake:", err)
+			os.Exit(2)
+		}
+		if *out != "" {
+			kv.WriteResult(*out, res)
+		}
+		fmt.Fprintf(stdout, "stake: cases=%d nontrivial=%d disagreements=%d monitor=%v counters=%v\n", res.Evaluations, res.DistinctNontrivial, res.DisagreementCount, res.MonitorHitCount, res.Counters)
+	case "rewards":
+		fs := flag.NewFlagSet("rewards", flag.ExitOnError)
+		driver := fs.String("driver", "", "path to olpdriver")
+		seed := fs.Uint64("seed", 1, "seed")
+		hist := fs.Int("histories", 10, "histories")
+		blocks := fs.Int("blocks", 30, "blocks per history")
+		maxtx := fs.Int("maxtxs", 4, "max txs per block")
+		only := fs.Int("case", -1, "run only this case")
+		verbose := fs.Bool("v", false, "print every correspondence line")
+		replay := fs.String("replay", "", "replay file written by ./check (re-executes the case it names)")
+		out := fs.String("out", "", "result json")
+		fs.Parse(os.Args[2:])
+		stdout := apph.SilenceAppLogs()
+		var res *apph.Result
+		var err error
+		if *replay != "" {
+			res, err = apph.ReplayRewards(*driver, *replay)
+		} else {
+			res, err = apph.RunRewards(apph.RewardsOptions{Driver: *driver, Seed: *seed, Histories: *hist, Blocks: *blocks, MaxTxs: *maxtx, OnlyCase: *only, Verbose: *verbose})
+		}
+		apph.Cleanup()
+		if err != nil {
+			fmt.Fprintln(stdout, "olh rewards:", err)
+			os.Exit(2)
+		}
+		if *out != "" {
+			kv.WriteResult(*out, res)
+		}
+		fmt.Fprintf(stdout, "rewards: cases=%d nontrivial=%d disagreements=%d monitor=%v counters=%v\n", res.Evaluations, res.DistinctNontrivial, res.DisagreementCount, res.MonitorHitCount, res.Counters)
+		for _, h := range res.MonitorHits {
+			fmt.Fprintf(stdout, "HIT %s case %d: %s\n", h.Signature, h.Case, h.Detail)
+		}
+		for _, d := range res.Disagreements {
+			fmt.Fprintf(stdout, "DISAGREE case %d: %s\n", d.Case, d.Op)
+		}
+		if *replay != "" && (len(res.MonitorHits) > 0 || res.DisagreementCount > 0) {
+			os.Exit(1)
+		}
 	default:
 		fmt.Fprintln(os.Stderr, "unknown engine", os.Args[1])
 		os.Exit(2)
